@@ -107,7 +107,10 @@ Fixpoint weave (ws : list str) (ks : list xnode) : list xnode :=
   | [] => text_kids (hd [] ws)
   | k :: r => text_kids (hd [] ws) ++ k :: weave (tl ws) r
   end.
-Definition el (l : str) (al : list xattr) (ks : list xnode) : xnode := XElem (mkName [] l) al ks.
+(* structural elements carry a marker as their (provisional) name space, so that the rendering's name-space
+   assignment [r_space] can tell an element name from an attribute name with the same local name (style) *)
+Definition el_mark : str := [101]%N.
+Definition el (l : str) (al : list xattr) (ks : list xnode) : xnode := XElem (mkName el_mark l) al ks.
 
 (* canonical attribute lists (what the values amount to); the written lists are permutations of them *)
 Definition hdr_attrs (s : tstyle) : list xattr :=
@@ -119,7 +122,7 @@ Definition lang_value (r : rendering) (m : gdoc) : option str :=
   match gd_lang m with Some (code, _) => Some (code ++ r_lang_rest r) | None => r_lang_other r end.
 Definition int_attr_of (l : str) (force : bool) (v : Z) : list xattr :=
   if force || negb (v =? 0) then [(mkName [] l, itoa_z v)] else [].
-Definition root_attrs (r : rendering) (m : gdoc) : list xattr :=
+Definition rroot_attrs (r : rendering) (m : gdoc) : list xattr :=
   match lang_value r m with Some v => [(mkName [] s_lang, v)] | None => [] end
   ++ int_attr_of s_frameRate (r_fr_attr r) (gd_framerate m) ++ int_attr_of s_tickRate (r_tr_attr r) (gd_tickrate m)
   ++ r_root_extra r.
@@ -156,11 +159,11 @@ Definition denote_ttml (r : rendering) (m : gdoc) : tdoc :=
 (* ================= the check ================= *)
 Definition xname_eqb' (a b : xname) : bool := str_eqb (x_space a) (x_space b) && str_eqb (x_local a) (x_local b).
 Definition xattr_eqb (a b : xattr) : bool := xname_eqb' (fst a) (fst b) && str_eqb (snd a) (snd b).
-Fixpoint nodupb (l : list str) : bool :=
-  match l with [] => true | a :: r => negb (existsb (str_eqb a) r) && nodupb r end.
+Fixpoint rnodupb (l : list str) : bool :=
+  match l with [] => true | a :: r => negb (existsb (str_eqb a) r) && rnodupb r end.
 (* [actual] is [canon] in another order; local names pairwise distinct *)
 Definition attrs_perm_ok (canon actual : list xattr) : bool :=
-  Nat.eqb (length canon) (length actual) && nodupb (map attr_local canon) && nodupb (map attr_local actual)
+  Nat.eqb (length canon) (length actual) && rnodupb (map attr_local canon) && rnodupb (map attr_local actual)
   && forallb (fun a => existsb (xattr_eqb a) actual) canon.
 Definition ostr_eqb (a b : option str) : bool :=
   match a, b with Some x, Some y => str_eqb x y | None, None => true | _, _ => false end.
@@ -198,8 +201,8 @@ Definition render_ok (r : rendering) (m : gdoc) : bool :=
   let styles := map (fun s => (ts_id s, s)) (gd_styles m) in
   let regions := map (fun s => (ts_id s, s)) (gd_regions m) in
   int64b (gd_framerate m) && int64b (gd_tickrate m) && lang_ok r m && sections_ok (r_sections r)
-  && root_extra_ok (r_root_extra r) && attrs_perm_ok (root_attrs r m) (r_root_attrs r)
-  && nodupb (map ts_id (gd_styles m)) && nodupb (map ts_id (gd_regions m))
+  && root_extra_ok (r_root_extra r) && attrs_perm_ok (rroot_attrs r m) (r_root_attrs r)
+  && rnodupb (map ts_id (gd_styles m)) && rnodupb (map ts_id (gd_regions m))
   && Nat.eqb (length (r_style_attrs r)) (length (gd_styles m))
   && Nat.eqb (length (r_region_attrs r)) (length (gd_regions m))
   && Nat.eqb (length (r_paras r)) (length (gd_items m))
